@@ -378,6 +378,29 @@ def h_post_select(env, n, keys, kind, expected_list, canary=False):
     cmp_dict(env, v, v, "input dictionary unchanged")
 
 
+def h_filter(env, n, keys):
+    """filter_hist(hist, predicate, *args, **kwargs): the kept shots are exactly those whose bitstring satisfies the predicate WITH the
+    arguments the caller gave (by position, by keyword, or mixed - the predicate has defaults for them), kept + rejected = total,
+    and the input histogram is unchanged"""
+    from tangelo.toolboxes.post_processing import Histogram
+    from tangelo.toolboxes.post_processing.histogram import filter_hist
+    c = counts_in(env, keys, lo=0)
+
+    def pred(bitstring, pos=0, val="1", invert=False):
+        return (bitstring[pos] == val) != invert
+    calls = [((), {}), ((n - 1, "0"), {}), ((), dict(pos=n - 1, val="0")), ((n - 1,), dict(val="0")), ((), dict(invert=True)), ((0, "1", True), {}),
+             ((), dict(val="0", invert=True, pos=n - 1))]
+    for a_, k_ in calls:
+        h = Histogram(dict(c))
+        before = dict(h.counts)
+        kept = filter_hist(h, pred, *a_, **k_)
+        rej = filter_hist(h, lambda b_, *aa, **kk: not pred(b_, *aa, **kk), *a_, **k_)
+        ref = {b_: v for b_, v in before.items() if pred(b_, *a_, **k_)}
+        cmp_dict(env, kept.counts, ref, f"filter_hist(args={a_}, kwargs={k_}): kept counts are those of the bitstrings satisfying the predicate", width=n)
+        env.check_eq(total(kept.counts) + total(rej.counts), total(before), f"filter_hist(args={a_}, kwargs={k_}): kept + rejected shots == all shots")
+        cmp_dict(env, h.counts, before, "filter_hist leaves the input histogram unchanged", width=n)
+
+
 def h_split(env, n, keys, kind, cases, canary=False):
     from tangelo.toolboxes.post_processing.post_selection import split_frequency_dict
     v = values_in(env, keys, kind)
@@ -651,6 +674,8 @@ def shapes(tier, seed):
         if n == 3:
             cases = rr.sample(cases, 8 if quick else 24)
         out.append(Shape(f"hist/marginal_expectation/{nm(n, keys)}", h_marginal_expect, dict(n=n, keys=keys, cases=cases), modules=MODS))
+    for n_, keys_ in ((2, ["00", "01", "10", "11"]), (3, ["000", "011", "101", "110", "111"]), (1, ["0", "1"])):
+        out.append(Shape(f"hist/filter/n{n_}", h_filter, dict(n=n_, keys=keys_), modules=MODS))
     # resampling
     r = sub("res")
     res = [(n, k) for n, k in small if len(k) >= 1]
